@@ -176,5 +176,5 @@ def getTargetJulianDate(start_julian_date, jump_delta):
         target_calendar_date.day,
         target_calendar_date.hour,
         target_calendar_date.minute,
-        target_calendar_date.second,
+        target_calendar_date.second + target_calendar_date.microsecond / 1e6,
     )
